@@ -76,7 +76,15 @@ def posOK (p : String) : Bool :=
   if p.length < 2 then false else
   let tag := (p.take 1).toString
   let rest := (p.drop 1).toString
-  if tag == "s" then
+  if tag == "b" then
+    -- b:<col>:<blk>:(l<0-3>|o<0-7>)   (a byte of the length / offset field of a column in a block of a .bsu file)
+    match p.splitOn ":" with
+    | ["b", col, blk, f] =>
+      !col.isEmpty && col.length < 20 && digitsOnly blk && blk.length < 3 && f.length == 2 &&
+        (((f.take 1).toString == "l" && ["0", "1", "2", "3"].contains (f.drop 1).toString) ||
+         ((f.take 1).toString == "o" && ["0", "1", "2", "3", "4", "5", "6", "7"].contains (f.drop 1).toString))
+    | _ => false
+  else if tag == "s" then
     -- s:<col>:(a|e)<n>   (a byte of the statistics record of a column inside a .sst file)
     match p.splitOn ":" with
     | ["s", col, an] =>
